@@ -160,6 +160,61 @@ PruneExplained(pre, line, post) ==
 EnvExplained(pre, line, post) ==
   /\ FrameOthers(pre, line, post, Kinds)
 
+(* ---- extension: the readers (ext.archive.*, conformance class) --------------- *)
+(* line.reads = << [kind, at, items << [name, n, loop] >>] >>: a third client    *)
+(* read every known object of `kind` through the code's readers after `at`      *)
+(* writes of the call (between two ZooKeeper writes of the archiver).           *)
+(*   n    = download_batch over every snapshot + live children (for /finished:  *)
+(*          the api/state query + /finished children)                           *)
+(*   loop = how often AppTraceLoop / ServerTraceLoop handed the event on        *)
+(* ext.archive.read     n = what Archive.tla's Read computes in the state after *)
+(*                      `at` writes: live + number of snapshots holding it -    *)
+(*                      hence never 0, 2 inside the upload -> delete window, 1  *)
+(*                      otherwise, +1 per earlier cut that left a copy behind   *)
+(* ext.archive.readLoop 1 <= loop <= n, and loop = 1 unless another event of    *)
+(*                      the same object carries the same timestamp (the loop's  *)
+(*                      de-duplication compares timestamps, then whole events)  *)
+ReadClean(line) == /\ \A kd \in Kinds : line.added[kd] = <<>>
+                   /\ line.touched = <<>>
+ReadNames(pre, kd) == {e.name : e \in pre.kinds[kd].live \cup RowsOf(pre.kinds[kd])}
+ReadExp(pre, line, r, nm) ==
+  LET kd == r.kind
+      P == pre.kinds[kd]
+      old == Cardinality({s \in P.snaps : \E x \in s.rows : x.name = nm})
+      islive == \E x \in P.live : x.name = nm
+  IN IF line.ev = "Archive" /\ kd = line.kind
+     THEN LET B == line.batch
+              S == OrderSeq(kd, EligibleSet(kd, P.live, pre.sched, pre.now, line.expiry))
+              gone == {S[x].name : x \in 1..NDeleted(r.at, B)}
+              new == Cardinality({j \in 1..NSnaps(r.at, B) :
+                                    \E x \in BatchSet(S, B, j) : x.name = nm})
+          IN old + new + (IF islive /\ nm \notin gone THEN 1 ELSE 0)
+     ELSE old + (IF islive THEN 1 ELSE 0)
+ReadOk(pre, line) ==
+  ReadClean(line) =>
+    \A y \in DOMAIN line.reads :
+       LET r == line.reads[y]
+           names == ReadNames(pre, r.kind) IN
+       /\ \A nm \in names : \E x \in DOMAIN r.items :
+              r.items[x].name = nm /\ r.items[x].n = ReadExp(pre, line, r, nm) /\ r.items[x].n >= 1
+       /\ \A x \in DOMAIN r.items : r.items[x].name \in names
+ReadLoopOk(pre, line) ==
+  ReadClean(line) =>
+    \A y \in DOMAIN line.reads :
+       LET r == line.reads[y]
+           known == pre.kinds[r.kind].live \cup RowsOf(pre.kinds[r.kind]) IN
+       \A x \in DOMAIN r.items :
+          LET it == r.items[x]
+              twin == \E e \in known, f \in known :
+                        e.name = it.name /\ f.name # e.name /\ f.inst = e.inst /\ f.ts = e.ts IN
+          /\ it.loop >= 1 /\ it.loop <= it.n
+          /\ (~twin => it.loop = 1)
+ReadEx(line) ==
+  E("ext.read", line.reads # <<>>)
+  \cup E("ext.readTwice", \E y \in DOMAIN line.reads : \E x \in DOMAIN line.reads[y].items :
+            line.reads[y].items[x].n >= 2)
+  \cup E("ext.readMidRun", \E y \in DOMAIN line.reads : line.reads[y].at > 0)
+
 Boundary(pre, line) ==
   line.kind # "server" /\ \E e \in pre.kinds[line.kind].live : e.ts + line.expiry = pre.now
 
@@ -169,8 +224,10 @@ Verdict(pre, line, post) ==
               \cup F("C18.liveScheduled", LiveScheduled(pre, line, post))
               \cup F("C18.liveYoung", LiveYoung(pre, line, post))
               \cup F("C18.fullBatch", FullBatch(pre, line, post))
-              \cup F("drift.step", ArchiveExplained(pre, line, post)),
-     ex |-> E("C18", NewSnaps(pre.kinds[line.kind], post.kinds[line.kind]) # {})
+              \cup F("drift.step", ArchiveExplained(pre, line, post))
+              \cup F("ext.archive.read", ReadOk(pre, line))
+              \cup F("ext.archive.readLoop", ReadLoopOk(pre, line)),
+     ex |-> ReadEx(line) \cup E("C18", NewSnaps(pre.kinds[line.kind], post.kinds[line.kind]) # {})
             \cup E("cut", line.crashed)
             \cup E("boundary", Boundary(pre, line))
             \cup E("scheduledOld", line.kind = "trace" /\ \E e \in pre.kinds["trace"].live :
@@ -187,7 +244,10 @@ Verdict(pre, line, post) ==
             \cup E("prune", SeqsOf(post.kinds[line.kind]) # SeqsOf(pre.kinds[line.kind]))
             \cup E("cut", line.crashed)]
   ELSE
-    [fail |-> F("drift.step", EnvExplained(pre, line, post)), ex |-> {}]
+    [fail |-> F("drift.step", EnvExplained(pre, line, post))
+              \cup F("ext.archive.read", ReadOk(pre, line))
+              \cup F("ext.archive.readLoop", ReadLoopOk(pre, line)),
+     ex |-> ReadEx(line)]
 
 Init == /\ t \in DOMAIN Traces
         /\ i = 1
